@@ -59,6 +59,9 @@ def runs(tier):
 
 def gen_scenario(rng, i):
     kind = 'layout' if rng.random() < 0.35 else 'csv'
+    # the kind follows the run index too, so that the stratified variants below really occur in every batch of eight:
+    # 1 and 7 are layout scenarios, the other six CSV scenarios
+    kind = 'layout' if i % 8 in (1, 7) else 'csv'
     leftover = False
     b = bm.gen_budget(rng, 'migrate')
     pre = {}
@@ -135,6 +138,10 @@ def gen_scenario(rng, i):
                 files[sp] = 'year: 2020\ndata_sources: []\n'
             extra_s = ['-s', alt]
         leftover = variant != 'init' and not pre and (rng.random() < 0.12 or force_leftover)
+        if not pre and not leftover and 'merchants_file' not in files[sp] and (i % 8 == 4 or rng.random() < 0.05):
+            # `tally init` in a fresh folder, then the old CSV copied in: settings.yaml names a merchants.rules that holds comments only
+            pre[cfg + '/merchants.rules'] = '# Tally Merchant Rules\n# Add your rules below, for example:\n#\n# [Netflix]\n# match: contains("NETFLIX")\n# category: Subscriptions\n'
+            files[sp] = files[sp].rstrip('\r\n') + ('\r\n' if '\r\n' in files[sp] else '\n') + 'merchants_file: config/merchants.rules\n'
         obs = {'argv': ['up', cfg, '--format', 'json', '-v'] + extra_s, 'cwd': '.'}
         if extra_s:
             argv = argv + extra_s
@@ -149,6 +156,9 @@ def gen_scenario(rng, i):
             for rule in b['rules_model']['rules']:
                 if rng.random() < 0.7:
                     rule['match'] = 'contains("%s")' % rng.choice(words)
+        if rng.random() < 0.25 or i % 8 == 1:
+            # where the report goes is a setting: next to the budget, below config/, below data/ (all accepted by `tally up`)
+            b['output_dir'] = rng.choice(['.', 'config/reports', 'data/reports', 'reports', 'output/html'])
         files = bm.render_budget(b, rng)
         yes = rng.random() < 0.6
         if yes:
@@ -172,12 +182,20 @@ def gen_scenario(rng, i):
     for r_, c in pre.items():
         world[r_] = c
     if kind == 'csv' and (i % 8 == 6 or rng.random() < 0.06):
-        # the config directory is a symbolic link (a synced or shared folder): `config` is how the user and settings.yaml spell it
         cfg_ = base + 'config'
-        moved = [r_ for r_ in world if r_.startswith(cfg_ + '/')]
-        for r_ in moved:
-            world[base + 'store/tally-config/' + r_[len(cfg_) + 1:]] = world.pop(r_)
-        world[cfg_ + '@'] = 'store/tally-config'
+        which = (i // 8) % 3 if i % 8 == 6 else rng.randrange(3)
+        if which == 0:
+            # the config directory is a symbolic link (a synced or shared folder): `config` is how the user and settings.yaml spell it
+            moved = [r_ for r_ in world if r_.startswith(cfg_ + '/')]
+            for r_ in moved:
+                world[base + 'store/tally-config/' + r_[len(cfg_) + 1:]] = world.pop(r_)
+            world[cfg_ + '@'] = 'store/tally-config'
+        else:
+            # one config file is a symbolic link into a dotfiles / shared folder: settings.yaml, or the legacy CSV
+            leaf = 'settings.yaml' if which == 1 else 'merchant_categories.csv'
+            if cfg_ + '/' + leaf in world and world[cfg_ + '/' + leaf] is not None:
+                world[base + 'dotfiles/' + leaf] = world.pop(cfg_ + '/' + leaf)
+                world[cfg_ + '/' + leaf + '@'] = '../dotfiles/' + leaf
     snap = {}
     for r_, c in world.items():
         if c is None:
@@ -259,8 +277,8 @@ def lost_content(s0, sf):
             have.setdefault(c, []).append(r)
     lost = []
     for r, c in s0.items():
-        if c is None or not c or is_output_path(r):
-            continue
+        if c is None or not c or is_output_path(r) or r.endswith('@'):
+            continue      # (a symbolic link is a name, not content: what it pointed to is judged as the file it is)
         if c in have:
             continue
         bn = os.path.basename(r)
@@ -565,10 +583,16 @@ def run_one(seed, i, tier, scratch):
         if not same_classification(b1, b0):
             # the complete run is itself the last prefix: I1/I2 still apply to it, but "as before" (I3)
             # presupposes a classification-preserving conversion, which is C14's subject, not C15's
-            if not (some_categorised(b0) and all_unknown(b1)):
+            if b1.get('status') != 'ok':
+                # the run went through all its steps (or stopped at one that failed by itself) and the budget now gives no report at
+                # all: that is not a conversion nuance - I3 asks for the classification as before, at once or after one re-run
+                check_i3 = True
+                count['golden_ends_without_report'] = 1
+            elif not (some_categorised(b0) and all_unknown(b1)):
                 count['discarded.golden_not_preserving'] = 1
                 return fin(log, count, sets, violations, samples)
-            check_i3 = False
+            else:
+                check_i3 = False
         s1d = util.tree_digest(s1)
         s0d = util.tree_digest(s0)
         plans = [[p] for p in fault_plans(trace, rng, tier)]
